@@ -27,6 +27,10 @@ def decide(run, recs, res, errors, theorems, module):
         # floating-point level: normalize in rounded arithmetic, instantiated at Coq's primitive binary64 floats
         broken += standard_proof_obligations(run, "C13f", ["C13_normalize_rounded", "C13_binary64_std", "C13_normalize_binary64", "C13_float_nonvacuous"],
                                              allowed_axioms=STD_FLOAT_AXIOMS)
+        broken += standard_proof_obligations(run, "C14f", ["C13_ignore_below_rounded", "C13_truncate_after_rounded", "C13_truncate_after_all_rounded",
+                                                           "C14_renorm_binary64"], allowed_axioms=STD_FLOAT_AXIOMS)
+    if module == "C14":
+        broken += standard_proof_obligations(run, "C14f", ["C14_drop_last_rounded", "C14_slice_rounded", "C14_renorm_binary64"], allowed_axioms=STD_FLOAT_AXIOMS)
     if res[2]:
         r = by_id[res[2][0]]
         violation(run, {"failing_input": r, "what": "the implementation's output violates the property's specification (holds_on = false)",
